@@ -56,6 +56,16 @@ func Run(c *fw.Ctx) {
 		x := genObs(n, draw, r)
 		runVectorCase(cs, s, x, r, true)
 	})
+	// (1b) directed witness of the open finding on hierarchical HMMs: the
+	// generated case hmm.variants#160 of seed 1, re-derived from its PRNG stream
+	// (a case is a function of its stream only), so that the witness is
+	// re-executed under every VERIF_SEED and tier
+	c.Cases("hmm.variants.directed", 1, func(cs *fw.Case) {
+		cs.Monitor = "hmm.variants"
+		cs.R = prng.For(1, "hmm.variants", 160)
+		runVariantCase(cs, cs.R)
+		cs.Monitor = "hmm.variants.directed"
+	})
 	// (2) random vector HMMs
 	c.Cases("hmm", c.N(60000, 1000000), func(cs *fw.Case) {
 		r := cs.R
